@@ -1,42 +1,69 @@
 (* DepLoad.v -- concurrent loading of ONE dependency's outputs by SEVERAL dependants in
-   load_outputs=minimal (property C15, clause "every command that executes finds its direct
-   dependencies' outputs present and current").  Definitions only; lemmas in DepLoad_proofs.v,
-   statements in properties/C15_depload.v.
+   load_outputs=minimal (property C15, clauses "every command that executes finds its direct
+   dependencies' outputs present and current" and "cache faults while dependency outputs are being
+   loaded").  Definitions only; lemmas in DepLoad_proofs.v, statements in properties/C15_depload.v.
 
    Build.v is a sequential semantics: a dependant's task calls LoadDependencyOutputs, which loads each
    dependency.  In the real executor several dependants of one cache-hit dependency d run concurrently
-   (worker pool) and race on d.  What each step mirrors:
+   (worker pool) and race on d.  What each step mirrors (internal/execution/execute.go LoadDependencyOutputs,
+   closure loadDependency, unless said otherwise):
 
-     CheckFlag    internal/execution/execute.go LoadDependencyOutputs: `if localDep.OutputsLoaded { continue }`,
-                  an UNLOCKED read of d.OutputsLoaded; true -> nothing to do for d, on to the command
-     LoadResult   execute.go: `e.targetCache.Load(ctx, localDep.ChangeHash)` (d is a cache hit: it succeeds)
-     Lock         internal/output/registry.go LoadOutputs: `r.targetMutexMap.Lock(target.Label.String())`,
-                  blocks (= not enabled) while another task holds d's lock
-     RecheckFlag  registry.go: `if target.OutputsLoaded { return nil }` under the lock (the deferred Unlock follows)
+     Start        the dependant is handed to a worker and reaches d in its loop over the dependencies
+     OuterLock    `e.dependencyMutexMap.Lock(localDep.Label.String())`: the per-dependency lock around the WHOLE
+                  step "make the outputs of d present"; blocks (= not enabled) while another task holds it
+     CheckFlag    `if localDep.OutputsLoaded { return false, nil }` -- read UNDER the outer lock
+     LoadResult   `e.targetCache.Load(ctx, localDep.ChangeHash)` (d is a cache hit: it succeeds)
+     Lock         internal/output/registry.go LoadOutputs: `r.targetMutexMap.Lock(target.Label.String())`, the
+                  registry's own (inner) lock; blocks while another task holds it
+     Recheck      registry.go: `if target.OutputsLoaded { return nil }` under the inner lock
      Validate     registry.go: validateTargetResultOutputs
      Restore i    registry.go: the pool task of output i: handler.Load = the blob is read from the CAS and the
-                  file written.  The n tasks run in parallel in the real code: any order, one step each;
-                  the pc remembers which outputs THIS task has restored
+                  file written.  The n tasks run in parallel in the real code: any order, one step each; the pc
+                  remembers which outputs THIS task has restored.  FAULT: when blob i is missing from the cache
+                  ([missing s i], fixed by the initial state) the step fails: LoadOutputs returns the error, the
+                  flag stays false, the task goes on to Unlock and then RE-RUNS d
      SetFlag      registry.go: `target.OutputsLoaded = true` -- after `task.Wait()` of every restore
      Unlock       registry.go: the deferred `r.targetMutexMap.Unlock`
-     RunCmd       the dependant's command starts: it READS every output of d (the observation)
+     RerunStart   `rerunDependency()` = executeTarget(d): d's command starts in d's package directory.  From now on
+                  every output of d is [Torn] (removed, truncated or half written) ...
+     RerunWrite i ... until this run of the command has completely written output i: [Current]
+     Complete     execute.go executeTarget -> OnTargetComplete: registry.WriteOutputs (takes the registry's inner lock
+                  for its duration: enabled only while nobody holds it; READS every output and stores the bytes
+                  in the cache -- logged in [wrote]) and `target.OutputsLoaded = true`
+     OuterUnlock  the deferred `e.dependencyMutexMap.Unlock`
+     RunCmd       the dependant's command starts: it READS every output of d (the observation, logged in [obs])
 
-   Out of scope: a restore that fails (lost blob) and the re-run path behind it -- Build.v covers the fault path
-   sequentially (Build_c15_proofs.v); here d is a cache hit whose blobs are all readable.
+   Out of scope: a re-run whose command fails (Build.v covers the failing path sequentially, tools/c15.py
+   witness_rerun_fails runs it), the recursive LoadDependencyOutputs(d) before the re-run (d's own dependencies:
+   the same protocol one level up, locks taken towards ancestors only), restore tasks of LoadOutputs still in
+   flight when an earlier task's failure is returned.
 
-   Variants (same step function, parameter [variant]) are the two seeded regressions kept in /verif/seeded:
-     VFlagEarly      C15h: `target.OutputsLoaded = true` moved BEFORE the restores (still under the lock)
-     VRequestedOnce  C15f: a "requested once" map consulted and marked at the top of the loop
-                     (`requestedDependencies.LoadOrStore`): every dependant but the first skips d.
-   [restores] and [obs] are ghost logs: they never influence [step]. *)
+   Variants (same step function, parameter [variant]):
+     VNoOuterLock    the code BEFORE the repair of C15-F1: no outer lock (OuterLock / OuterUnlock do nothing), so
+                     CheckFlag is an unlocked read and two dependants that both find d unrestorable re-run it at
+                     the same time
+     VFlagEarly      seed C15h, made against the code before the outer lock (so: no outer lock either):
+                     `target.OutputsLoaded = true` moved BEFORE the restores, reset when a restore fails
+     VRequestedOnce  seed C15f: a "requested once" map consulted and marked at the top of the loop, before the
+                     outer lock (`requestedDependencies.LoadOrStore`): every dependant but the first skips d.
+   [restores], [reruns], [obs], [wrote] are ghost logs: they never influence [step]. *)
 From Coq Require Import Arith Bool List.
 Import ListNotations.
 
-Inductive variant : Type := VCorrect | VFlagEarly | VRequestedOnce.
+Inductive variant : Type := VCorrect | VFlagEarly | VRequestedOnce | VNoOuterLock.
 
-Inductive fstate : Type := Stale (* absent, or the bytes of another version *) | Current.
+(* does the variant take the per-dependency lock of the executor? *)
+Definition outer_locked (v : variant) : bool :=
+  match v with VCorrect | VRequestedOnce => true | VFlagEarly | VNoOuterLock => false end.
+
+Inductive fstate : Type :=
+| Stale    (* absent, or the bytes of another version *)
+| Torn     (* a run of d's command is rewriting it *)
+| Current.
 
 Inductive pc : Type :=
+| PStart
+| POuterLock
 | PCheckFlag
 | PLoadResult
 | PLock
@@ -44,33 +71,62 @@ Inductive pc : Type :=
 | PValidate
 | PRestore (done : list nat)     (* inside the restore loop; done = outputs this task has restored *)
 | PSetFlag
-| PUnlock
+| PUnlock                        (* leaving LoadOutputs, no error *)
+| PUnlockF                       (* leaving LoadOutputs with the error of a failed restore *)
+| PRerunStart
+| PRerun (done : list nat)       (* d's command is running; done = outputs this run has written *)
+| PComplete
+| POuterUnlock
 | PRunCmd
 | PDone.
 
 Inductive stepk : Type :=
-| SCheckFlag | SLoadResult | SLock | SRecheck | SValidate | SRestore (i : nat) | SSetFlag | SUnlock | SRunCmd.
+| SStart | SOuterLock | SCheckFlag | SLoadResult | SLock | SRecheck | SValidate | SRestore (i : nat) | SSetFlag
+| SUnlock | SRerunStart | SRerunWrite (i : nat) | SComplete | SOuterUnlock | SRunCmd.
 
 Definition event : Type := (nat * stepk)%type.    (* (task, step) *)
 
 Record state : Type := mkState {
   flag      : bool;                         (* d.OutputsLoaded *)
-  lock      : option nat;                   (* holder of d's entry in targetMutexMap *)
+  olock     : option nat;                   (* holder of d's entry in the executor's dependencyMutexMap *)
+  lock      : option nat;                   (* holder of d's entry in the registry's targetMutexMap *)
   files     : nat -> fstate;                (* workspace copy of output i of d *)
   pcs       : nat -> pc;
   requested : bool;                         (* VRequestedOnce only: d is in requestedDependencies *)
-  restores  : list (nat * nat);             (* ghost: (task, output) of every Restore step, latest first *)
-  obs       : list (nat * list fstate)      (* ghost: (task, what its command saw for outputs 0..n-1), latest first *)
+  missing   : nat -> bool;                  (* blob i is lost from the cache; never changes *)
+  restores  : list (nat * nat);             (* ghost: (task, output) of every successful Restore step, latest first *)
+  reruns    : list nat;                     (* ghost: the task of every RerunStart step, latest first *)
+  obs       : list (nat * list fstate);     (* ghost: (task, what its command saw for outputs 0..n-1), latest first *)
+  wrote     : list (nat * list fstate)      (* ghost: (task, what WriteOutputs read and cached after its re-run) *)
 }.
 
 Definition upd {A : Type} (f : nat -> A) (t : nat) (x : A) : nat -> A :=
   fun u => if Nat.eqb u t then x else f u.
 
-Definition init (k : nat) : state :=
-  mkState false None (fun _ => Stale) (fun t => if Nat.ltb t k then PCheckFlag else PDone) false [] [].
+Definition init (k : nat) (miss : nat -> bool) : state :=
+  mkState false None None (fun _ => Stale) (fun t => if Nat.ltb t k then PStart else PDone) false miss [] [] [] [].
 
+(* one-field updates *)
 Definition set_pc (s : state) (t : nat) (p : pc) : state :=
-  mkState (flag s) (lock s) (files s) (upd (pcs s) t p) (requested s) (restores s) (obs s).
+  mkState (flag s) (olock s) (lock s) (files s) (upd (pcs s) t p) (requested s) (missing s) (restores s) (reruns s) (obs s) (wrote s).
+Definition set_flag (s : state) (b : bool) : state :=
+  mkState b (olock s) (lock s) (files s) (pcs s) (requested s) (missing s) (restores s) (reruns s) (obs s) (wrote s).
+Definition set_olock (s : state) (o : option nat) : state :=
+  mkState (flag s) o (lock s) (files s) (pcs s) (requested s) (missing s) (restores s) (reruns s) (obs s) (wrote s).
+Definition set_lock (s : state) (o : option nat) : state :=
+  mkState (flag s) (olock s) o (files s) (pcs s) (requested s) (missing s) (restores s) (reruns s) (obs s) (wrote s).
+Definition set_files (s : state) (f : nat -> fstate) : state :=
+  mkState (flag s) (olock s) (lock s) f (pcs s) (requested s) (missing s) (restores s) (reruns s) (obs s) (wrote s).
+Definition set_requested (s : state) : state :=
+  mkState (flag s) (olock s) (lock s) (files s) (pcs s) true (missing s) (restores s) (reruns s) (obs s) (wrote s).
+Definition log_restore (s : state) (t i : nat) : state :=
+  mkState (flag s) (olock s) (lock s) (files s) (pcs s) (requested s) (missing s) ((t, i) :: restores s) (reruns s) (obs s) (wrote s).
+Definition log_rerun (s : state) (t : nat) : state :=
+  mkState (flag s) (olock s) (lock s) (files s) (pcs s) (requested s) (missing s) (restores s) (t :: reruns s) (obs s) (wrote s).
+Definition log_obs (s : state) (t : nat) (o : list fstate) : state :=
+  mkState (flag s) (olock s) (lock s) (files s) (pcs s) (requested s) (missing s) (restores s) (reruns s) ((t, o) :: obs s) (wrote s).
+Definition log_wrote (s : state) (t : nat) (o : list fstate) : state :=
+  mkState (flag s) (olock s) (lock s) (files s) (pcs s) (requested s) (missing s) (restores s) (reruns s) (obs s) ((t, o) :: wrote s).
 
 Definition memb (i : nat) (l : list nat) : bool := existsb (Nat.eqb i) l.
 
@@ -90,41 +146,61 @@ Definition after_setflag (v : variant) (n : nat) : pc :=       (* ... after SetF
   end.
 Definition after_restores (v : variant) : pc :=                (* ... after the last Restore *)
   match v with VFlagEarly => PUnlock | _ => PSetFlag end.
+Definition flag_after_failure (v : variant) (b : bool) : bool :=   (* ... the flag after a failed restore *)
+  match v with VFlagEarly => false | _ => b end.
 
 Definition observe (n : nat) (s : state) : list fstate := map (files s) (seq 0 n).
+
+(* d's command starts: each of its n outputs is unspecified until this run has written it *)
+Definition tear (n : nat) (f : nat -> fstate) : nat -> fstate := fun i => if Nat.ltb i n then Torn else f i.
 
 Definition step (v : variant) (n : nat) (s : state) (e : event) : option state :=
   let t := fst e in
   match snd e, pcs s t with
-  | SCheckFlag, PCheckFlag =>
+  | SStart, PStart =>
       match v with
-      | VRequestedOnce =>
-          if requested s then Some (set_pc s t PRunCmd)
-          else Some (mkState (flag s) (lock s) (files s)
-                             (upd (pcs s) t (if flag s then PRunCmd else PLoadResult)) true (restores s) (obs s))
-      | _ => Some (set_pc s t (if flag s then PRunCmd else PLoadResult))
+      | VRequestedOnce => if requested s then Some (set_pc s t PRunCmd) else Some (set_pc (set_requested s) t POuterLock)
+      | _ => Some (set_pc s t POuterLock)
       end
+  | SOuterLock, POuterLock =>
+      if outer_locked v then
+        match olock s with
+        | None => Some (set_pc (set_olock s (Some t)) t PCheckFlag)
+        | Some _ => None
+        end
+      else Some (set_pc s t PCheckFlag)
+  | SCheckFlag, PCheckFlag => Some (set_pc s t (if flag s then POuterUnlock else PLoadResult))
   | SLoadResult, PLoadResult => Some (set_pc s t PLock)
   | SLock, PLock =>
       match lock s with
-      | None => Some (mkState (flag s) (Some t) (files s) (upd (pcs s) t PRecheck) (requested s) (restores s) (obs s))
+      | None => Some (set_pc (set_lock s (Some t)) t PRecheck)
       | Some _ => None
       end
   | SRecheck, PRecheck => Some (set_pc s t (if flag s then PUnlock else PValidate))
   | SValidate, PValidate => Some (set_pc s t (after_validate v n))
   | SRestore i, PRestore done =>
       if Nat.ltb i n && negb (memb i done) then
-        Some (mkState (flag s) (lock s) (upd (files s) i Current)
-                      (upd (pcs s) t (if all_done n (i :: done) then after_restores v else PRestore (i :: done)))
-                      (requested s) ((t, i) :: restores s) (obs s))
+        if missing s i then Some (set_pc (set_flag s (flag_after_failure v (flag s))) t PUnlockF)
+        else Some (set_pc (log_restore (set_files s (upd (files s) i Current)) t i) t
+                          (if all_done n (i :: done) then after_restores v else PRestore (i :: done)))
       else None
-  | SSetFlag, PSetFlag =>
-      Some (mkState true (lock s) (files s) (upd (pcs s) t (after_setflag v n)) (requested s) (restores s) (obs s))
-  | SUnlock, PUnlock =>
-      Some (mkState (flag s) None (files s) (upd (pcs s) t PRunCmd) (requested s) (restores s) (obs s))
-  | SRunCmd, PRunCmd =>
-      Some (mkState (flag s) (lock s) (files s) (upd (pcs s) t PDone) (requested s) (restores s)
-                    ((t, observe n s) :: obs s))
+  | SSetFlag, PSetFlag => Some (set_pc (set_flag s true) t (after_setflag v n))
+  | SUnlock, PUnlock => Some (set_pc (set_lock s None) t POuterUnlock)
+  | SUnlock, PUnlockF => Some (set_pc (set_lock s None) t PRerunStart)
+  | SRerunStart, PRerunStart =>
+      Some (set_pc (log_rerun (set_files s (tear n (files s))) t) t (if all_done n [] then PComplete else PRerun []))
+  | SRerunWrite i, PRerun done =>
+      if Nat.ltb i n && negb (memb i done) then
+        Some (set_pc (set_files s (upd (files s) i Current)) t
+                     (if all_done n (i :: done) then PComplete else PRerun (i :: done)))
+      else None
+  | SComplete, PComplete =>
+      match lock s with
+      | None => Some (set_pc (log_wrote (set_flag s true) t (observe n s)) t POuterUnlock)
+      | Some _ => None
+      end
+  | SOuterUnlock, POuterUnlock => Some (set_pc (if outer_locked v then set_olock s None else s) t PRunCmd)
+  | SRunCmd, PRunCmd => Some (set_pc (log_obs s t (observe n s)) t PDone)
   | _, _ => None
   end.
 
@@ -134,62 +210,97 @@ Fixpoint run (v : variant) (n : nat) (s : state) (evs : list event) : option sta
   | e :: r => match step v n s e with Some s' => run v n s' r | None => None end
   end.
 
-Definition reachable (v : variant) (n k : nat) (s : state) : Prop :=
-  exists evs, run v n (init k) evs = Some s.
+(* [miss] = the set of blobs lost from the cache: any set *)
+Definition reachable (v : variant) (n k : nat) (miss : nat -> bool) (s : state) : Prop :=
+  exists evs, run v n (init k miss) evs = Some s.
 
 (* ------------------------------------------------------------------ what the theorems talk about *)
-Definition is_current (f : fstate) : bool := match f with Current => true | Stale => false end.
+Definition is_current (f : fstate) : bool := match f with Current => true | _ => false end.
+Definition is_torn (f : fstate) : bool := match f with Torn => true | _ => false end.
 Definition saw_all_current (n : nat) (o : list fstate) : bool :=
   Nat.eqb (length o) n && forallb is_current o.
-(* some recorded command saw a stale (or absent) output *)
+(* some recorded command saw an output that is not current (stale, absent or torn) *)
 Definition cmd_saw_stale (s : state) : bool := existsb (fun to => negb (forallb is_current (snd to))) (obs s).
+(* some recorded command saw a torn output / WriteOutputs cached a torn output *)
+Definition cmd_saw_torn (s : state) : bool := existsb (fun to => existsb is_torn (snd to)) (obs s).
+Definition cached_torn (s : state) : bool := existsb (fun to => existsb is_torn (snd to)) (wrote s).
+Definition no_blob_missing : nat -> bool := fun _ => false.
 Definition run_saw_stale (v : variant) (n k : nat) (evs : list event) : bool :=
-  match run v n (init k) evs with Some s => cmd_saw_stale s | None => false end.
+  match run v n (init k no_blob_missing) evs with Some s => cmd_saw_stale s | None => false end.
+(* with the blobs [miss] lost: (a command saw a torn output, torn bytes were cached, number of runs of d's command) *)
+Definition run_fault_summary (v : variant) (n k : nat) (miss : nat -> bool) (evs : list event) : option (bool * bool * nat) :=
+  match run v n (init k miss) evs with
+  | Some s => Some (cmd_saw_torn s, cached_torn s, length (reruns s))
+  | None => None
+  end.
 
 Definition is_done (p : pc) : bool := match p with PDone => true | _ => false end.
 Definition all_tasks_done (k : nat) (s : state) : Prop := forall t, t < k -> pcs s t = PDone.
 
-(* the program text between Lock and Unlock *)
+(* the program text between OuterLock and OuterUnlock *)
+Definition in_outer_region (p : pc) : bool :=
+  match p with PStart | POuterLock | PRunCmd | PDone => false | _ => true end.
+(* the program text between Lock and Unlock (inside Registry.LoadOutputs) *)
 Definition in_locked_region (p : pc) : bool :=
-  match p with PRecheck | PValidate | PRestore _ | PSetFlag | PUnlock => true | _ => false end.
+  match p with PRecheck | PValidate | PRestore _ | PSetFlag | PUnlock | PUnlockF => true | _ => false end.
+(* d's command is running, or has run and its outputs are being written to the cache *)
+Definition rerunning (p : pc) : bool := match p with PRerun _ | PComplete => true | _ => false end.
 
-(* outputs a task inside the restore loop still has to restore *)
+(* outputs a task inside the restore loop (or a run of d's command) still has to produce *)
 Definition remaining (n : nat) (done : list nat) : list nat := filter (fun j => negb (memb j done)) (seq 0 n).
 
 (* number of steps a task at pc p can still take (VCorrect): the termination measure *)
 Definition pc_measure (n : nat) (p : pc) : nat :=
   match p with
-  | PCheckFlag => n + 8 | PLoadResult => n + 7 | PLock => n + 6 | PRecheck => n + 5 | PValidate => n + 4
-  | PRestore done => 3 + length (remaining n done)
-  | PSetFlag => 3 | PUnlock => 2 | PRunCmd => 1 | PDone => 0
+  | PStart => 2 * n + 14 | POuterLock => 2 * n + 13 | PCheckFlag => 2 * n + 12 | PLoadResult => 2 * n + 11
+  | PLock => 2 * n + 10 | PRecheck => 2 * n + 9 | PValidate => 2 * n + 8
+  | PRestore done => n + 7 + length (remaining n done)
+  | PSetFlag => 4 | PUnlock => 3
+  | PUnlockF => n + 6 | PRerunStart => n + 5
+  | PRerun done => 3 + length (remaining n done)
+  | PComplete => 3 | POuterUnlock => 2 | PRunCmd => 1 | PDone => 0
   end.
 Definition measure (n k : nat) (s : state) : nat := list_sum (map (fun t => pc_measure n (pcs s t)) (seq 0 k)).
+Definition run_bound (n k : nat) : nat := k * (2 * n + 14).
 
 (* ------------------------------------------------------------------ the deterministic tie (tools/c15.py depload_stage)
    The harness (harness/go/depload) drives the real Executor/Registry with a cache backend whose CAS reads are
-   held at a gate.  A schedule is a list of tokens; after each token the implementation runs until every goroutine
-   is blocked (quiescence).  The model side of a token:
-     TStart t    task t takes its CheckFlag step (the dependant is handed to a worker), then everything settles
+   held at a gate, and gives d a real command that stops at a gate of its own after it has started to rewrite its
+   outputs.  A schedule is a list of tokens; after each token the implementation runs until every goroutine is
+   blocked and every running command of d sits at its gate (quiescence).  The model side of a token:
+     TStart t    task t takes its Start step (the dependant is handed to a worker), then everything settles
      TRelease i  the held read of blob i is released: the task inside the restore loop takes Restore i, then
                  everything settles (i is reported by the harness; a release while nothing is held is a no-op)
-   [settle] runs every step that needs no token (all but CheckFlag and Restore), lowest task first when [asc],
-   highest first otherwise, until none is enabled.  Observation per token (a "window"): the blob reads held at the
-   gate afterwards (= the outputs the task inside the restore loop has not restored yet) and the commands that
-   ran in the window with what they saw. *)
-Inductive token : Type := TStart (t : nat) | TRelease (i : nat).
+     TGo         the run of d's command that waits at its gate goes on: RerunWrite of its first output, then
+                 everything settles (the other outputs are written without a further token)
+   [settle] runs every step that needs no token, lowest task first when [asc], highest first otherwise, until none is
+   enabled.  A Restore of a MISSING blob needs no token (the read fails at once) but is taken only when no other
+   output is left to restore: LoadOutputs waits for its restore tasks in output order, and the tie uses sets of
+   missing blobs that are upper segments {m, ..., n-1}, so the failure surfaces when every lower output is in place.
+   Observation per token (a "window"): enabled?, the number of runs of d's command at their gate, the number of
+   runs started so far; the blob reads held at the gate afterwards; the commands that ran in the window with what
+   they saw. *)
+Inductive token : Type := TStart (t : nat) | TRelease (i : nat) | TGo.
 
-Definition auto_step (p : pc) : option stepk :=
+Definition only_missing_left (n : nat) (s : state) (done : list nat) : bool := forallb (missing s) (remaining n done).
+
+Definition auto_step (n : nat) (s : state) (p : pc) : option stepk :=
   match p with
-  | PLoadResult => Some SLoadResult | PLock => Some SLock | PRecheck => Some SRecheck | PValidate => Some SValidate
-  | PSetFlag => Some SSetFlag | PUnlock => Some SUnlock | PRunCmd => Some SRunCmd
-  | PCheckFlag | PRestore _ | PDone => None
+  | PStart | PDone => None
+  | POuterLock => Some SOuterLock | PCheckFlag => Some SCheckFlag | PLoadResult => Some SLoadResult
+  | PLock => Some SLock | PRecheck => Some SRecheck | PValidate => Some SValidate
+  | PRestore done => if only_missing_left n s done then option_map SRestore (hd_error (remaining n done)) else None
+  | PSetFlag => Some SSetFlag | PUnlock | PUnlockF => Some SUnlock | PRerunStart => Some SRerunStart
+  | PRerun [] => None
+  | PRerun done => option_map SRerunWrite (hd_error (remaining n done))
+  | PComplete => Some SComplete | POuterUnlock => Some SOuterUnlock | PRunCmd => Some SRunCmd
   end.
 
 Fixpoint first_auto (v : variant) (n : nat) (s : state) (ts : list nat) : option state :=
   match ts with
   | [] => None
   | t :: r =>
-      match auto_step (pcs s t) with
+      match auto_step n s (pcs s t) with
       | Some k => match step v n s (t, k) with Some s' => Some s' | None => first_auto v n s r end
       | None => first_auto v n s r
       end
@@ -208,22 +319,31 @@ Fixpoint restorer (s : state) (ts : list nat) : option (nat * list nat) :=
   | t :: r => match pcs s t with PRestore done => Some (t, done) | _ => restorer s r end
   end.
 
-Definition token_event (s : state) (ts : list nat) (tok : token) : option event :=
+(* the tasks whose run of d's command waits at its gate *)
+Definition at_gate (s : state) (ts : list nat) : list nat :=
+  filter (fun t => match pcs s t with PRerun [] => true | _ => false end) ts.
+
+Definition token_event (n : nat) (s : state) (ts : list nat) (tok : token) : option event :=
   match tok with
-  | TStart t => Some (t, SCheckFlag)
+  | TStart t => Some (t, SStart)
   | TRelease i => match restorer s ts with Some (t, _) => Some (t, SRestore i) | None => None end
+  | TGo => match at_gate s ts, remaining n [] with t :: _, i :: _ => Some (t, SRerunWrite i) | _, _ => None end
   end.
 
+(* the reads held at the backend's gate: the outputs the restorer has not restored, but for the lost blobs *)
 Definition held (n : nat) (s : state) (ts : list nat) : list nat :=
-  match restorer s ts with Some (_, done) => remaining n done | None => [] end.
+  match restorer s ts with
+  | Some (_, done) => filter (fun i => negb (missing s i)) (remaining n done)
+  | None => []
+  end.
 
 Definition task_order (asc : bool) (k : nat) : list nat := if asc then seq 0 k else rev (seq 0 k).
-Definition settle_fuel (n k : nat) : nat := k * (n + 8).
+Definition settle_fuel (n k : nat) : nat := run_bound n k.
 
 (* one token: (enabled?, state after settling) *)
 Definition do_token (v : variant) (asc : bool) (n k : nat) (s : state) (tok : token) : bool * state :=
   let ts := task_order asc k in
-  match token_event s ts tok with
+  match token_event n s ts tok with
   | None => (false, s)
   | Some e => match step v n s e with
               | None => (false, s)
@@ -231,12 +351,14 @@ Definition do_token (v : variant) (asc : bool) (n k : nat) (s : state) (tok : to
               end
   end.
 
-(* a window as numbers: [enabled; held...] :: one list per command of the window, oldest first: task :: (1 = current, 0 = stale) per output *)
-Definition enc_obs (to : nat * list fstate) : list nat :=
-  fst to :: map (fun f => if is_current f then 1 else 0) (snd to).
+(* a window as numbers: [enabled; runs at their gate; runs started so far] :: [held reads...] :: one list per command of the
+   window, oldest first: task :: (1 = current, 0 = stale, 2 = torn) per output *)
+Definition enc_fstate (f : fstate) : nat := match f with Stale => 0 | Current => 1 | Torn => 2 end.
+Definition enc_obs (to : nat * list fstate) : list nat := fst to :: map enc_fstate (snd to).
 Definition window (n k : nat) (asc : bool) (before : state) (r : bool * state) : list (list nat) :=
   let s' := snd r in
-  ((if fst r then 1 else 0) :: held n s' (task_order asc k))
+  [(if fst r then 1 else 0); length (at_gate s' (task_order asc k)); length (reruns s')]
+    :: held n s' (task_order asc k)
     :: map enc_obs (rev (firstn (length (obs s') - length (obs before)) (obs s'))).
 
 Fixpoint replay_from (v : variant) (asc : bool) (n k : nat) (s : state) (toks : list token)
@@ -249,7 +371,11 @@ Fixpoint replay_from (v : variant) (asc : bool) (n k : nat) (s : state) (toks : 
       (window n k asc s res :: fst rest, snd rest)
   end.
 
-(* the windows of a schedule, then a last entry: the pcs that are not Done at the end (0 = all commands ran) *)
-Definition replay (v : variant) (asc : bool) (n k : nat) (toks : list token) : list (list (list nat)) :=
-  let r := replay_from v asc n k (init k) toks in
-  fst r ++ [[filter (fun t => negb (is_done (pcs (snd r) t))) (seq 0 k)]].
+(* the blobs lost in a tie case: the upper segment {m, ..., n-1} (m >= n: none) *)
+Definition missing_from (m : nat) : nat -> bool := fun i => Nat.leb m i.
+
+(* the windows of a schedule, then a last entry: the pcs that are not Done at the end (0 = all commands ran) and what
+   WriteOutputs cached after a re-run ([task; per output 1 | 0 | 2]) *)
+Definition replay (v : variant) (asc : bool) (n k m : nat) (toks : list token) : list (list (list nat)) :=
+  let r := replay_from v asc n k (init k (missing_from m)) toks in
+  fst r ++ [filter (fun t => negb (is_done (pcs (snd r) t))) (seq 0 k) :: map enc_obs (rev (wrote (snd r)))].
